@@ -1,5 +1,5 @@
 SPECIFICATION Spec
 CONSTANTS
-  MaxN = 1
+  MaxN = 2
 INVARIANTS InRange ErrorClasses Invariances ClosedForm ClosedFormPv Emit
 CHECK_DEADLOCK FALSE
